@@ -218,7 +218,7 @@ ClrMiniG == [ Base EXCEPT !.sel = <<"m","g">>, !.api = "external" ]
 ClrMiniConfs == {ClrMiniF, ClrMiniG, GinSingleton}
 ClrMiniRegs == {ClrMiniConfs}
 ClrMiniVals == { L1, S1Call, R(<<"m","g">>, <<>>, "bare") }
-ClrMiniConstNames == { <<"X">> }
+ClrMiniConstNames == { <<"X">>, <<"m","X">> }      \* one shadows the other: definable together only in interactive mode
 ClrHooks == {
   [id |-> "h1", rets |-> {HookKey(<<>>, <<"f">>, "p", L1)}, raises |-> FALSE],
   [id |-> "h4", rets |-> {}, raises |-> TRUE],
